@@ -1225,8 +1225,20 @@ OpFails(ev, pre) ==
        ELSE IF IsVector(x) THEN VectorFails(ev, pre)
        ELSE {}
 
+\* C12: "the Frobenius norm equals the dense norm" - for every valid array, also one that stores no block (norm 0)
+NormFails(ev, pre) ==
+  IF ev.op \notin {"norm", "norm_sq"} \/ ev.in = <<>> \/ ev.entry = "suite" THEN {}
+  ELSE LET x == Ins(ev, pre, 1) IN
+       IF ~((IsArray(x) /\ Valid(x)) \/ (IsVector(x) /\ ValidVector(x))) THEN {}
+       ELSE IF ev.outcome = "raise" THEN {"C12.norm.raises"}
+       ELSE LET r == Outs(ev, 1) IN
+            IF ev.op = "norm_sq" /\ IsScalar(r) /\ r.exact /\ AllExact(x)
+            THEN F(r.v = <<Norm2(IF IsArray(x) THEN Elem(x) ELSE VecElem(x)), 0>>, "C12.norm_equals_dense.direct")
+            ELSE {}
+
 EventFails(ev, pre) ==
   ValidFails(ev, pre)
+  \cup NormFails(ev, pre)
   \cup FrameFails(pre, ev.regs, Targets(ev))
   \cup DtypeFails(ev, pre)
   \cup OpFails(ev, pre)
